@@ -1153,7 +1153,7 @@ func ComputeLockSets(f *ssa.Function, entry lockState) *LockSets {
 			} else {
 				for _, p := range b.Preds {
 					if o, ok := out[p]; ok {
-						st = meet(st, o)
+						st = meet(st, tryLockEdge(p, b, o))
 					}
 				}
 				if st == nil {
@@ -2381,4 +2381,40 @@ func phiPredFacts(ph *ssa.Phi, pol bool) [][]Fact {
 		out = append(out, pf)
 	}
 	return out
+}
+
+// tryLockEdge: `if mu.TryLock() { ... }` holds mu on the edge where the call answered true.
+func tryLockEdge(p, b *ssa.BasicBlock, o lockState) lockState {
+	if len(p.Instrs) == 0 || len(p.Succs) != 2 || p.Succs[0] == p.Succs[1] {
+		return o
+	}
+	iff, ok := p.Instrs[len(p.Instrs)-1].(*ssa.If)
+	if !ok {
+		return o
+	}
+	c, pol := normCond(iff.Cond, p.Succs[0] == b)
+	call, ok := c.(*ssa.Call)
+	if !ok || !pol {
+		return o
+	}
+	cal := CalleeOf(call)
+	if !cal.Is("sync:Mutex.TryLock", "sync:RWMutex.TryLock", "sync:RWMutex.TryRLock") {
+		return o
+	}
+	rv := Recv(call)
+	if rv == nil {
+		return o
+	}
+	n := lockState{}
+	for k, v := range o {
+		n[k] = v
+	}
+	if cal.Name == "TryRLock" {
+		if n[lockPath(rv)] == "" {
+			n[lockPath(rv)] = "R"
+		}
+	} else {
+		n[lockPath(rv)] = "W"
+	}
+	return n
 }
